@@ -62,6 +62,7 @@ let () =
     show_crs (some_or_exc "runtime_error" (MatOps2.crs_of_ranges sc n m p c v)));
   List.iter (fun nm -> reg nm (fun t -> let a = t_crs t in show_crs (MatOps2.crs_copy sc a)))
     ["copy_tuple"; "copy_crs"; "copy_assign"; "copy_convert"; "copy_ranges"];
+  reg "copy_assign_view" (fun t -> let a = t_crs t in let b = t_crs t in show_crs (MatOps2.crs_copy sc a) ^ " " ^ show_crs b);
   (* complex values (non-trivial adjoint) *)
   reg "c.transpose" (fun t -> let a = t_crs_with t_c t in show_crs_with show_c (MatOps.transpose csc a));
   reg "c.saad" (fun t -> let a = t_crs_with t_c t in let b = t_crs_with t_c t in let s = t_b t in
